@@ -245,6 +245,12 @@ def handle (line : String) : Except String (String × Bool) := do
       match parseFormulaText (unhex h) with
       | some f => pure ("ok\t" ++ f.show, true)
       | none => pure ("reject", true)
+    | "ftext" =>
+      -- the text the theorem `C10_text_roundtrip` speaks about (names as plain tokens), and the model's reading of it
+      let names ← listOf tok
+      let φ ← fm
+      let t := text names φ
+      pure (t, parseFormulaText t == some (PF.ofFm names φ))
     | "pbase" =>
       let h ← tok
       match parseBaseText (unhex h) with
